@@ -1,5 +1,45 @@
-# C39 - diffs apply back: BOUNDED stand-in only (bounded/C39.py), labelled exploration, never counted as proved.
-# The pair goes through patiencediff/difflib opcodes and a Rust-backed parser (breezy._patch_rs); the per-line consumption rule of
-# iter_patched_from_hunks is provable in principle (not built); the round trip is checked exhaustively on the real functions.
-LEVEL = "exploration"
-undecided("everything: no obligation is discharged deductively for this property; see bounded/C39.py for the stated bounds")
+# C39 - diffs apply back. Proved: the per-line rule of the patcher (block contract on the body of the hunk-line loop of
+# iter_patched_from_hunks): an inserted line is emitted and consumes nothing of the original; a context or removed line consumes exactly
+# one original line, which must be equal to the line the patch lists - otherwise PatchConflict is raised and nothing is emitted; a
+# context line is emitted, a removed line is not. The round trip diff -> parse -> apply goes through patiencediff/difflib opcodes and a
+# Rust-backed parser and is covered by the bounded stand-in (bounded/C39.py), never counted as proved.
+LEVEL = "exploration"     # the property as a whole is decided by the bounded stand-in only; the block below is a proved conjunct
+HL = Opaque("HunkLine")
+class_tests(HL, ["InsertLine", "ContextLine", "RemoveLine"])
+attr_sort("HunkLine.contents", BYTES)
+always_truthy(HL, "hunk lines define neither __bool__ nor __len__")
+exceptions(PatchConflict="Exception", StopIteration="Exception", AssertionError="Exception")
+assume_note("a hunk line is an instance of exactly one of InsertLine, ContextLine, RemoveLine (three sibling classes of breezy.patches); "
+            "stated as a precondition of the block")
+pure("PatchConflict", "b''.join")
+
+
+def one_kind(h):
+    i, c, r = is_a(h, "InsertLine"), is_a(h, "ContextLine"), is_a(h, "RemoveLine")
+    return And(Or(i, c, r), Not(And(i, c)), Not(And(i, r)), Not(And(c, r)))
+
+
+def rule(c):
+    h, o = c.old.hunk_line, c.old.orig_lines
+    ins = is_a(h, "InsertLine")
+    return If(ins,
+              And(c.g.yielded == c.old.g.yielded + lift([attr(h, "contents")], Seq(BYTES)), c.orig_lines == o, c.line_no == c.old.line_no),
+              And(Len(o) >= 1, o[0] == attr(h, "contents"), c.orig_lines == o[1:Len(o)], c.line_no == c.old.line_no + 1,
+                  c.g.yielded == If(is_a(h, "ContextLine"), c.old.g.yielded + lift([o[0]], Seq(BYTES)), c.old.g.yielded)))
+
+
+target("breezy/patches.py::iter_patched_from_hunks", block=(r"^\s*seen_patch\.append\(hunk_line\.contents\)", r"(?m)^\s*if isinstance\(hunk_line, InsertLine\):$"),
+       params=dict(hunk_line=HL, orig_lines=Seq(BYTES), seen_patch=Seq(BYTES), line_no=INT, hunks=ANY, hunk=ANY), generator=BYTES,
+       locals=dict(orig_line=BYTES),
+       requires=lambda c: one_kind(c.hunk_line),
+       ensures={"one_hunk_line_is_applied_by_the_rule": rule,
+                "the_patch_text_seen_so_far_is_recorded": lambda c: c.seen_patch == c.old.seen_patch + lift([attr(c.old.hunk_line, "contents")], Seq(BYTES))},
+       raises={"PatchConflict": lambda c: And(Not(is_a(c.old.hunk_line, "InsertLine")), Len(c.old.orig_lines) >= 1,
+                                              c.old.orig_lines[0] != attr(c.old.hunk_line, "contents"), c.g.yielded == c.old.g.yielded),
+               "StopIteration": lambda c: And(Not(is_a(c.old.hunk_line, "InsertLine")), Len(c.old.orig_lines) == 0, c.g.yielded == c.old.g.yielded),
+               "AssertionError": lambda c: FALSE},
+       canary=lambda c: c.g.yielded == c.old.g.yielded,
+       note="block: how one line of a hunk is applied to the original text")
+
+undecided("the hunk loop around the block (skipping to hunk.orig_pos, the tail after the last hunk), parsing and serialising of patches (Rust), "
+          "diff generation: bounded stand-in only (bounded/C39.py)")
